@@ -30,26 +30,28 @@ func (d D) Bytes(n int, label string) []byte {
 
 // StreamOpts steers GenStream.
 type StreamOpts struct {
-	FileType     int      // -1: draw one of the 17
-	Msgs         []uint16 // candidate known messages for data records (default: hosted by the file type)
-	MinRecs      int
-	MaxRecs      int
-	Unhosted     bool // also emit known messages the file type does not host
-	UnknownMsgs  bool
-	UnknownFlds  bool
-	DevFields    bool
-	Compressed   bool // compressed timestamp headers
-	Narrow       bool // narrower compatible definitions
-	BigEndian    bool // allow big-endian definitions
-	Redefine     bool // redefine local types freely
-	LongArrays   bool // arrays longer than the profile length
-	OddStrings   bool // non UTF-8 / unterminated strings
-	TimeBias     bool // favour timestamp fields and boundary time values (C12)
-	NoLocalTime  bool
-	FieldFilter  func(m uint16, fi *fitmodel.FieldInfo) bool // nil: all
-	MaxFields    int                                         // max fields per definition (default 8)
-	ExtraFileIds bool                                        // more file_id messages (same type) later in the stream
-	Proto        byte                                        // 0: draw
+	FileType      int      // -1: draw one of the 17
+	Msgs          []uint16 // candidate known messages for data records (default: hosted by the file type)
+	MinRecs       int
+	MaxRecs       int
+	Unhosted      bool // also emit known messages the file type does not host
+	UnknownMsgs   bool
+	UnknownFlds   bool
+	DevFields     bool
+	Compressed    bool // compressed timestamp headers
+	Narrow        bool // narrower compatible definitions
+	BigEndian     bool // allow big-endian definitions
+	Redefine      bool // redefine local types freely
+	LongArrays    bool // arrays longer than the profile length
+	OddStrings    bool // non UTF-8 / unterminated strings
+	TimeBias      bool // favour timestamp fields and boundary time values (C12)
+	NoLocalTime   bool
+	FieldFilter   func(m uint16, fi *fitmodel.FieldInfo) bool // nil: all
+	MaxFields     int                                         // max fields per definition (default 8)
+	ExtraFileIds  bool                                        // more file_id messages (same type) later in the stream
+	Proto         byte                                        // 0: draw
+	CompressedPct int                                         // chance of a compressed header per record (default 18)
+	RedefinePct   int                                         // chance of forcing a new definition (default 25)
 }
 
 // DefaultStreamOpts enables everything a well-formed stream may contain.
@@ -448,7 +450,11 @@ func GenStream(d D, o StreamOpts) (*fitmodel.Stream, *GenInfo) {
 
 		// find a slot already defined for g, or define one
 		local := -1
-		if !(o.Redefine && d.Chance(25, "redef")) {
+		redefPct := o.RedefinePct
+		if redefPct == 0 {
+			redefPct = 25
+		}
+		if !(o.Redefine && d.Chance(redefPct, "redef")) {
 			for l := 0; l < 16; l++ {
 				if slots[l] != nil && slots[l].Global == g && d.Chance(85, "reuse") {
 					local = l
@@ -456,7 +462,11 @@ func GenStream(d D, o StreamOpts) (*fitmodel.Stream, *GenInfo) {
 				}
 			}
 		}
-		compressed := o.Compressed && d.Chance(18, "compr")
+		comprPct := o.CompressedPct
+		if comprPct == 0 {
+			comprPct = 18
+		}
+		compressed := o.Compressed && d.Chance(comprPct, "compr")
 		if local >= 0 && compressed && local > 3 {
 			compressed = false
 		}
